@@ -56,13 +56,22 @@ _mats = {}
 def material(variant):
     from srlife import materials
     if variant not in _mats:
-        _mats[variant] = materials.CeramicMaterial.load(os.path.join(REPO, "srlife/data/damage/SiC.xml"), variant)
+        if variant == "tdep":
+            # not shipped: SiC/base with a Weibull modulus (and strength) that depend strongly on temperature, so that
+            # anything evaluated at a tube-average instead of the element temperature shows
+            b = materials.CeramicMaterial.load(os.path.join(REPO, "srlife/data/damage/SiC.xml"), "base")
+            s300 = float(b.strength(300.0))
+            _mats[variant] = materials.StandardCeramicMaterial(
+                np.array([250.0, 1400.0]), np.array([1.1 * s300, 0.8 * s300]), np.array([250.0, 800.0, 1400.0]),
+                np.array([8.0, 10.0, 14.0]), b.C, b.nu_val, b.Nv_temperatures, b.Nvvals, b.Bv_temperatures, b.Bvvals)
+        else:
+            _mats[variant] = materials.CeramicMaterial.load(os.path.join(REPO, "srlife/data/damage/SiC.xml"), variant)
     return _mats[variant]
 
 
 def variants():
     import xml.etree.ElementTree as ET
-    return [c.tag for c in ET.parse(os.path.join(REPO, "srlife/data/damage/SiC.xml")).getroot()]
+    return [c.tag for c in ET.parse(os.path.join(REPO, "srlife/data/damage/SiC.xml")).getroot()] + ["tdep"]
 
 
 def make_model(name, na=None, nb=None, cares=True):
@@ -502,7 +511,9 @@ def pred_aggregate(p):
     if tr.shape != (len(tubes),) or pr.shape != (len(p["panels"]),) or ov.shape != (1,):
         return ["result shapes %s %s %s for panel sizes %s" % (tr.shape, pr.shape, ov.shape, [len(x) for x in p["panels"]])]
     for nm, v in (("tube", tr), ("panel", pr), ("overall", ov)):
-        if not (np.all(np.isfinite(v)) and np.all(v > 0.0) and np.all(v <= 1.0)):
+        # exactly 0.0 is the binary64 rounding of exp(log R) for log R < -745 (a hopelessly overloaded tube), see
+        # in_range(); that the value IS exp(log-reliability) is checked below
+        if not (np.all(np.isfinite(v)) and np.all(v >= 0.0) and np.all(v <= 1.0)):
             bad.append("%s reliability outside (0,1]: %r" % (nm, v.tolist()))
     k = 0
     for i, pn in enumerate(p["panels"]):
@@ -884,6 +895,31 @@ def pred_uniaxial_polar(p):
     return []
 
 
+def pred_uniaxial_gradient(p):
+    """uniaxial tension in a tube whose elements are at different temperatures, material with a temperature-
+    dependent Weibull modulus and strength: every element follows the uniaxial law AT ITS OWN temperature:
+    log R_e / (-V_e (sigma/sigma0(T_e))^m(T_e)) within the quadrature accuracy `tol` of 1"""
+    mdl = _mk(p)
+    mat = material(p["variant"])
+    Ts = p["Ts"]
+    geom = dict(ro=10.0, t=1.0, h=10.0, nr=len(Ts) + 1, nt=2, nz=2, dim=1)
+    S = np.zeros((1, len(Ts), 1, 6))
+    S[..., 2] = p["sigma"]
+    tc = dict(geom=geom, times=[0.0], S=S.tolist(), T=[[[T] for T in Ts]], mult=1)
+    a, ea = safe_run_tube(mdl, p["variant"], tc, 0.0)
+    if ea:
+        return ["%s raised: %s" % (MCLASS[p["model"]], ea)]
+    ratios = []
+    for e, T in enumerate(Ts):
+        s_, m_ = float(mat.strength(T)), float(mat.modulus(T))
+        ratios.append(float(a["elem"][e] / (-(p["sigma"] / s_) ** m_ * a["volumes"][e])))
+    if not all(abs(r - 1.0) <= p["tol"] for r in ratios):
+        return ["uniaxial tension %g, element temperatures %s, m(T) = %s: log R_e / (-V_e (sigma/sigma0(T_e))^m(T_e)) = %s, not within "
+                "%g of 1 (%s)" % (p["sigma"], Ts, ["%.2f" % float(mat.modulus(T)) for T in Ts], ["%.4f" % r for r in ratios], p["tol"], MCLASS[p["model"]])]
+    return []
+
+
+PREDS["uniaxial_gradient"] = pred_uniaxial_gradient
 PREDS["repeated"] = pred_repeated
 PREDS["uniaxial_any"] = pred_uniaxial_any
 PREDS["uniaxial_polar"] = pred_uniaxial_polar
@@ -906,6 +942,8 @@ def special_jobs(rng, quick):
             variant = vs[(k + len(name)) % len(vs)]
             jobs.append(dict(pred="uniaxial_any", signature="c05:uniaxial:" + name, model=name, variant=variant, cares=True,
                              tot=0.0, sigma=float(rng.uniform(40.0, 150.0)), T=float(rng.uniform(TMIN, TMAX)), tol=0.05))
+        jobs.append(dict(pred="uniaxial_gradient", signature="c05:uniaxial:" + name, model=name, variant="tdep", cares=True, tot=0.0,
+                         sigma=float(rng.uniform(60.0, 120.0)), Ts=[500.0, 900.0, 1300.0], tol=0.06))
         if indep:
             continue
         for k, variant in enumerate(vs):
